@@ -2,25 +2,31 @@
    Statements are about Limits.run_prog v md, the executable model the correspondence run compares with the engine
    at v = Limits.repaired in all three modes (md : Strict | Warn | Lax); is_repaired v: the repairs present
    (.work/fixes/C08-zero-limits.patch: a local_namespace_limit of 0 is a limit; C07-namespace-rollback.patch: a refused
-   assignment does not stay in the namespace), v_item (one render-for context or one per item) left free. *)
+   assignment does not stay in the namespace; C07-namespace-across-block-super.patch: namespaces held across block.super
+   are counted), v_item (one render-for context or one per item) left free.
+   run_prog v md lim chain main glob sizes: chain = [] - main is the template; chain = d0 :: loaded - the template extends a
+   chain of templates, main is the body of the chain's base template with all block definitions inlined; glob = render
+   arguments (globals named like the template's variables: they are read, never measured). *)
 From LiquidVerif Require Import Prelude PyPrims Limits Limits_Proofs Limits_Sim_Proofs.
 Local Open Scope Z_scope.
 
 (* with an output stream limit L >= 0, whatever the template (output, captures, nested captures, ifchanged,
-   partials, macros, tablerow markup, 1-4 byte characters), the other limits and THE MODE: a completed render -
-   in WARN and LAX mode that is every render whose outermost context fits, errors being dropped per top-level
-   node - returns at most L UTF-8 bytes.  Holds for every variant of the code. *)
-Theorem C07_output_bound : forall v md lim main sizes s L,
+   partials, macros, tablerow markup, overriding blocks and block.super with buffers of their own, 1-4 byte
+   characters), the other limits and THE MODE: a completed render - in WARN and LAX mode that is every render whose
+   outermost context fits, errors being dropped per top-level node - returns at most L UTF-8 bytes.  Holds for every
+   variant of the code. *)
+Theorem C07_output_bound : forall v md lim chain main glob sizes s L,
   l_out lim = Some L -> 0 <= L ->
-  run_prog v md lim main sizes = LOk s -> utf8_bytes (buf_text (s_buf s)) <= L.
+  run_prog v md lim chain main glob sizes = LOk s -> utf8_bytes (buf_text (s_buf s)) <= L.
 Proof. exact run_out_bound. Qed.
 Print Assumptions C07_output_bound.
 
-(* the invariant behind it, for EVERY buffer the render creates (main, capture, ifchanged), at every moment and in
-   every mode: the text holds at most `size` bytes and at most the buffer's own limit (output_stream_limit - carried
-   size); a refused write grows the size but not the text, because the limit is checked BEFORE the text is written *)
-Theorem C07_buffer_invariant_any_mode : forall v md lim main sizes,
-  match run_prog v md lim main sizes with
+(* the invariant behind it, for EVERY buffer the render creates (main, capture, ifchanged, block.super), at every moment
+   and in every mode: the text holds at most `size` bytes and at most the buffer's own limit (output_stream_limit -
+   carried size); a refused write grows the size but not the text, because the limit is checked BEFORE the text is
+   written *)
+Theorem C07_buffer_invariant_any_mode : forall v md lim chain main glob sizes,
+  match run_prog v md lim chain main glob sizes with
   | LOk s | LErr _ s => bufinv lim (s_buf s)
   | LFuel => True
   end.
@@ -30,35 +36,51 @@ Print Assumptions C07_buffer_invariant_any_mode.
 (* STRICT: in a completed render every buffer moreover has size = bytes written <= its own limit *)
 Theorem C07_buffer_invariant : forall v lim,
   (forall L, l_out lim = Some L -> 0 <= L) ->
-  forall main sizes s, run_prog v Strict lim main sizes = LOk s -> bufinv_strict lim (s_buf s).
+  forall chain main glob sizes s, run_prog v Strict lim chain main glob sizes = LOk s -> bufinv_strict lim (s_buf s).
 Proof. exact run_out_inv_strict. Qed.
 Print Assumptions C07_buffer_invariant.
 
 (* STRICT: if the render completes with the output limit removed (other limits unchanged) and returns more
    than L bytes, then under output_stream_limit L it raises OutputStreamLimitError *)
-Theorem C07_output_raises : forall v, is_repaired v -> forall lim L main sizes s,
+Theorem C07_output_raises : forall v, is_repaired v -> forall lim L chain main glob sizes s,
   l_out lim = Some L -> 0 <= L ->
-  run_prog v Strict (with_out lim None) main sizes = LOk s ->
+  run_prog v Strict (with_out lim None) chain main glob sizes = LOk s ->
   L < utf8_bytes (buf_text (s_buf s)) ->
-  exists se, run_prog v Strict lim main sizes = LErr XOutput se.
+  exists se, run_prog v Strict lim chain main glob sizes = LErr XOutput se.
 Proof. exact run_out_raises. Qed.
 Print Assumptions C07_output_raises.
 
 (* namespace, in every mode: s_nslog holds, for every accepted assignment (assign, capture), the pair
-   (true total = measured sizes of the locals of the current context and of ALL contexts it was copied from,
+   (true total = measured sizes of ALL local namespaces alive at that moment: the current context's, those of the
+    contexts it was copied from - isolated copies for partials and macros, block-scoped copies for overriding blocks -
+    and those of overriding blocks suspended in block.super;
     size the engine computed = own locals + local_namespace_size_carry).  For every stream of measured sizes
-   (sys.getsizeof is an oracle), the two agree - the carry IS the ancestors' measured size - and with a limit M
-   the true total never exceeded M ... *)
-Theorem C07_namespace_bound : forall v md lim, is_repaired v -> forall main sizes s,
-  run_prog v md lim main sizes = LOk s ->
+   (sys.getsizeof is an oracle), the two agree - the carry IS the measured size of everything else that is alive - and
+   with a limit M the true total never exceeded M ... *)
+Theorem C07_namespace_bound : forall v md lim, is_repaired v -> forall chain main glob sizes s,
+  run_prog v md lim chain main glob sizes = LOk s ->
   Forall (fun p => fst p = snd p /\ forall M, l_ns lim = Some M -> fst p <= M) (s_nslog s).
 Proof. exact run_ns_bound_ok. Qed.
 Print Assumptions C07_namespace_bound.
 
-(* ... and a refused assignment (LocalNamespaceLimitError, dropped in WARN/LAX mode) leaves the namespace exactly
-   as it was: namespaces only ever hold what an accepted assignment put there *)
-Theorem C07_refused_assignment_keeps_namespace : forall v lim f x val s e s',
-  v_rollback v = true -> m_assign v lim f x val s = LErr e s' -> s_locals s' = s_locals s /\ s_nslog s' = s_nslog s.
+(* ... the invariant behind it, for whatever the render returns: in the context it ends in and in every suspended
+   context below it, the carry equals the measured size of the other live namespaces *)
+Theorem C07_carry_is_live_total : forall v md lim, is_repaired v -> forall chain main glob sizes,
+  match run_prog v md lim chain main glob sizes with
+  | LOk s | LErr _ s => nsinv (s_cx s) /\ cx_live (s_cx s) = cx_size (s_cx s)
+  | LFuel => True
+  end.
+Proof.
+  intros v md lim Hv chain main glob sizes. pose proof (run_ns_bound v md lim Hv chain main glob sizes) as R.
+  destruct (run_prog v md lim chain main glob sizes) as [s|e s|]; auto; destruct R as [_ R]; (split; [exact R|exact (nsinv_live _ R)]).
+Qed.
+Print Assumptions C07_carry_is_live_total.
+
+(* ... and a refused assignment (LocalNamespaceLimitError, dropped in WARN/LAX mode) leaves the context exactly
+   as it was - no value, and no copy of a global of the same name, stays behind: namespaces only ever hold what an
+   accepted assignment put there *)
+Theorem C07_refused_assignment_keeps_namespace : forall v lim x val s e s',
+  v_rollback v = true -> m_assign v lim x val s = LErr e s' -> s_cx s' = s_cx s /\ s_nslog s' = s_nslog s.
 Proof. exact m_assign_refused_keeps_locals. Qed.
 Print Assumptions C07_refused_assignment_keeps_namespace.
 
@@ -66,8 +88,8 @@ Print Assumptions C07_refused_assignment_keeps_namespace.
    completes under local_namespace_limit 0 *)
 Definition ns0 : limits := {| l_loop := None; l_out := None; l_ns := Some 0; l_depth := 30; l_nest := 30 |}.
 Theorem C07_unrepaired_zero_refuted :
-  (exists s, run_prog unrepaired Strict ns0 [Assign 0 [97%N]] [42] = LOk s /\ s_nslog s = [(42, 42)]) /\
-  exists se, run_prog repaired Strict ns0 [Assign 0 [97%N]] [42] = LErr XNamespace se.
+  (exists s, run_prog unrepaired Strict ns0 [] [Assign 0 [97%N]] [] [42] = LOk s /\ s_nslog s = [(42, 42)]) /\
+  exists se, run_prog repaired Strict ns0 [] [Assign 0 [97%N]] [] [42] = LErr XNamespace se.
 Proof. split; [eexists; split; vm_compute; reflexivity|eexists; vm_compute; reflexivity]. Qed.
 Print Assumptions C07_unrepaired_zero_refuted.
 
@@ -75,12 +97,25 @@ Print Assumptions C07_unrepaired_zero_refuted.
    completes holding 100 measured bytes under local_namespace_limit 50, and prints them; repaired: it does not *)
 Definition ns_lim (M : Z) : limits := {| l_loop := None; l_out := None; l_ns := Some M; l_depth := 30; l_nest := 30 |}.
 Theorem C07_unrepaired_rollback_refuted :
-  (exists s, run_prog unrepaired Lax (ns_lim 50) [Assign 0 [97%N]; Echo 0] [100] = LOk s /\ s_nslog s = [(100, 100)]
+  (exists s, run_prog unrepaired Lax (ns_lim 50) [] [Assign 0 [97%N]; Echo 0] [] [100] = LOk s /\ s_nslog s = [(100, 100)]
              /\ buf_text (s_buf s) = [97%N]) /\
-  (exists s, run_prog repaired Lax (ns_lim 50) [Assign 0 [97%N]; Echo 0] [100] = LOk s /\ s_nslog s = [] /\ s_locals s = []
+  (exists s, run_prog repaired Lax (ns_lim 50) [] [Assign 0 [97%N]; Echo 0] [] [100] = LOk s /\ s_nslog s = [] /\ s_locals s = []
              /\ buf_text (s_buf s) = []).
 Proof. split; eexists; repeat split; vm_compute; reflexivity. Qed.
 Print Assumptions C07_unrepaired_rollback_refuted.
+
+(* the code before C07-namespace-across-block-super.patch: child {% block b %}{% assign v0 = .. %}{{ block.super }}{% assign v2 = .. %}{% endblock %}
+   over base {% block b %}{% assign v1 = .. %}{% endblock %}, three values of 50 measured bytes, local_namespace_limit 100:
+   the block-scoped copy's carry is taken once, so the render completes while 150 bytes are held (the engine computes
+   100); repaired: the third assignment raises *)
+Definition super_ns_nest : list node := [Block [Assign 0 [97%N]; Super [Assign 1 [98%N]]; Assign 2 [99%N]]].
+Theorem C07_super_ns_unrepaired_refuted :
+  (exists s, run_prog no_super_ns Strict (ns_lim 100) [1; 1] super_ns_nest [] [50; 50; 50] = LOk s
+             /\ s_nslog s = [(150, 100); (100, 50); (50, 50)]) /\
+  exists se, run_prog repaired Strict (ns_lim 100) [1; 1] super_ns_nest [] [50; 50; 50] = LErr XNamespace se
+             /\ s_nslog se = [(100, 100); (50, 50)].
+Proof. split; [eexists; split; vm_compute; reflexivity|eexists; split; vm_compute; reflexivity]. Qed.
+Print Assumptions C07_super_ns_unrepaired_refuted.
 
 (* non-vacuity: multi-byte text through a capture inside a partial; 11 bytes fit in 11 and not in 10;
    in LAX mode under 10 the render completes with the 1 byte written before the partial's second node was refused *)
@@ -88,15 +123,36 @@ Definition euro : N := 8364%N.
 Definition prog1 : list node := [Text [97%N]; Render [Capture 0 [Text [euro; euro]]; Echo 0; Text [128512%N]]].
 Definition out_lim (L : Z) : limits := {| l_loop := None; l_out := Some L; l_ns := None; l_depth := 30; l_nest := 30 |}.
 Example C07_nonvacuous_output :
-  (exists s, run_prog repaired Strict (out_lim 11) prog1 [80] = LOk s /\ utf8_bytes (buf_text (s_buf s)) = 11) /\
-  (exists se, run_prog repaired Strict (out_lim 10) prog1 [80] = LErr XOutput se) /\
-  (exists s, run_prog repaired Lax (out_lim 10) prog1 [80] = LOk s /\ buf_text (s_buf s) = [97%N; euro; euro]).
+  (exists s, run_prog repaired Strict (out_lim 11) [] prog1 [] [80] = LOk s /\ utf8_bytes (buf_text (s_buf s)) = 11) /\
+  (exists se, run_prog repaired Strict (out_lim 10) [] prog1 [] [80] = LErr XOutput se) /\
+  (exists s, run_prog repaired Lax (out_lim 10) [] prog1 [] [80] = LOk s /\ buf_text (s_buf s) = [97%N; euro; euro]).
 Proof.
   split; [eexists; split; vm_compute; reflexivity|]. split; [eexists; vm_compute; reflexivity|].
   eexists; split; vm_compute; reflexivity.
 Qed.
 
 Example C07_nonvacuous_namespace :
-  (exists s, run_prog repaired Strict (ns_lim 100) [Assign 0 [97%N]; Render [Assign 1 [98%N]]] [50; 50] = LOk s /\ s_nslog s = [(100, 100); (50, 50)]) /\
-  exists se, run_prog repaired Strict (ns_lim 99) [Assign 0 [97%N]; Render [Assign 1 [98%N]]] [50; 50] = LErr XNamespace se.
+  (exists s, run_prog repaired Strict (ns_lim 100) [] [Assign 0 [97%N]; Render [Assign 1 [98%N]]] [] [50; 50] = LOk s /\ s_nslog s = [(100, 100); (50, 50)]) /\
+  exists se, run_prog repaired Strict (ns_lim 99) [] [Assign 0 [97%N]; Render [Assign 1 [98%N]]] [] [50; 50] = LErr XNamespace se.
 Proof. split; [eexists; split; vm_compute; reflexivity|eexists; vm_compute; reflexivity]. Qed.
+
+(* a chain: the overriding block writes a, captures block.super (the parent block writes 2 euro signs into a buffer
+   of its own, whose budget is what is left of 8: 7) and echoes it: 1 + 6 = 7 bytes, then 1 more; 8 fit, 7 do not *)
+Definition prog2 : list node := [Block [Text [97%N]; Capture 0 [Super [Text [euro; euro]]]; Echo 0; Text [98%N]]].
+Example C07_nonvacuous_chain :
+  (exists s, run_prog repaired Strict (out_lim 8) [2; 1] prog2 [] [80] = LOk s /\ utf8_bytes (buf_text (s_buf s)) = 8) /\
+  (exists se, run_prog repaired Strict (out_lim 7) [2; 1] prog2 [] [80] = LErr XOutput se) /\
+  (exists se, run_prog repaired Strict (out_lim 6) [2; 1] prog2 [] [80] = LErr XOutput se /\ buf_text (s_buf se) = [97%N]).
+Proof.
+  split; [eexists; split; vm_compute; reflexivity|]. split; [eexists; vm_compute; reflexivity|].
+  eexists; split; vm_compute; reflexivity.
+Qed.
+
+(* render arguments named like the template's variables: a refused assignment (LAX, limit 50, measured 100) leaves the
+   global visible and nothing of it in the namespace; an accepted one shadows it *)
+Example C07_nonvacuous_globals :
+  (exists s, run_prog repaired Lax (ns_lim 50) [] [Assign 0 [97%N]; Echo 0] [(0%N, [71%N])] [100] = LOk s
+             /\ buf_text (s_buf s) = [71%N] /\ s_locals s = [] /\ s_nslog s = []) /\
+  (exists s, run_prog repaired Lax (ns_lim 50) [] [Assign 0 [97%N]; Echo 0] [(0%N, [71%N])] [50] = LOk s
+             /\ buf_text (s_buf s) = [97%N] /\ s_nslog s = [(50, 50)]).
+Proof. split; eexists; repeat split; vm_compute; reflexivity. Qed.
